@@ -11,7 +11,7 @@ the strings that are not NFC-stable): `a>b` joined by `,`, `~` = empty.
   P <nfc> <text>                      URL(text) and the render/re-parse chain
   B <nfc> <netlocSep> <v6> <scheme> <user> <pw> <host> <port|-> <parts> <query> <fragment>
                                       a URL built from components, same chain
-  L <withText> <defaultScheme> <schemes> <tail> <pre> <match> <pre> <match> ...
+  L <nfc> <withText> <defaultScheme> <schemes> <tail> <pre> <match> <pre> <match> ...
                                       the loop of find_all_links over the given regex matches
 Chain = `descr(u) | descr(URL(to_text(True))) | descr(URL(to_text(False)))`, where
 descr = attributes + `M<min text>` + `X<full text>`; an exception is `!<Name>`; `?idna` marks a full
@@ -172,14 +172,14 @@ def handle (line : String) : String :=
             pathParts := if parts.isEmpty then [[]] else parts, query := query, fragment := frag }
       | none => "bad-op"
     | _, _, _, _, _, _, _, _ => "bad-op"
-  | "L" :: wt :: ds :: schemes :: tail :: ms =>
-    match text? ds, texts? schemes, text? tail, pairs? ms with
-    | some ds, some schemes, some tail, some ms =>
-      let env := mkEnv []
+  | "L" :: tbl :: wt :: ds :: schemes :: tail :: ms =>
+    match nfcTable? tbl, text? ds, texts? schemes, text? tail, pairs? ms with
+    | some tbl, some ds, some schemes, some tail, some ms =>
+      let env := mkEnv tbl
       match findAllLinks env ⟨wt = "1", ds, schemes⟩ ms tail with
       | .ok items => if items.isEmpty then "~" else " ".intercalate (items.map (showItem env))
       | .error e => "!" ++ errName e
-    | _, _, _, _ => "bad-op"
+    | _, _, _, _, _ => "bad-op"
   | _ => "bad-op"
 
 end C06.Driver
